@@ -7,6 +7,7 @@ mod c07;
 mod c09;
 mod c08;
 mod c14;
+mod c05;
 mod animgen;
 mod webpfile;
 mod oracle;
@@ -73,6 +74,7 @@ fn main() {
         "C09" => c09::run(&o),
         "C08" => c08::run(&o),
         "C14" => c14::run(&o),
+        "C05" => c05::run(&o),
         _ => {
             eprintln!("unknown property {prop}");
             std::process::exit(2);
